@@ -19,10 +19,13 @@ func verifExport(db *DB) ([]byte, ltx.Pos, error) {
 func VerifC16Import() {
 	ctx := context.Background()
 	// existing database: rollback mode, or WAL mode with a committed transaction still in the WAL
-	existing := rt.Choose("existing", 3) // 0 rollback, 1 WAL checkpointed, 2 WAL with un-checkpointed commit
+	existing := rt.Choose("existing", 4) // 0 rollback, 1 WAL checkpointed, 2 WAL with un-checkpointed commit, 3 dropped
 	var w *verifWorld
-	if existing == 0 {
+	if existing == 0 || existing == 3 {
 		w = verifChainWorld(1)
+		if existing == 3 {
+			rt.Check(w.db.Drop(ctx) == nil, "harness: drop")
+		}
 	} else {
 		var m *verifWALModel
 		w, m = verifC03Setup(1 + rt.Choose("n0", 2))
@@ -38,7 +41,9 @@ func VerifC16Import() {
 	db := w.db
 	pos0 := db.Pos()
 	before, epos, err := verifExport(db)
-	rt.Check(err == nil && epos == pos0, "export of the current image succeeds and reports the current position")
+	if existing != 3 {
+		rt.Check(err == nil && epos == pos0, "export of the current image succeeds and reports the current position")
+	}
 	names0 := verifTxNames(db)
 
 	// the input
@@ -92,7 +97,11 @@ func VerifC16Import() {
 	rt.Check(db.Pos() == pos0, "a failing import leaves the position unchanged")
 	names1 := verifTxNames(db)
 	rt.Check(len(names1) == len(names0), "a failing import leaves the transaction log unchanged")
-	rt.Check(eerr == nil && apos == pos0 && bytes.Equal(after, before), "a failing import leaves the database image unchanged")
+	if existing != 3 {
+		rt.Check(eerr == nil && apos == pos0 && bytes.Equal(after, before), "a failing import leaves the database image unchanged")
+	} else {
+		rt.Check(verifGone(db.DatabasePath()) && db.PageN() == 0, "a failing import into a dropped database leaves it dropped")
+	}
 	// a later restart still works
 	db2 := NewDB(w.store, "db", db.Path())
 	rt.Check(db2.Open() == nil, "a failing import does not prevent a later restart")
